@@ -15,6 +15,7 @@ import os
 import re
 import struct
 import time
+from concurrent.futures import ThreadPoolExecutor
 from fractions import Fraction
 
 import yvlib
@@ -176,6 +177,13 @@ def run_snips(binary, items, batch=100):
     return out
 
 
+def both(f, g):
+    """implementation side and model side at the same time"""
+    with ThreadPoolExecutor(max_workers=2) as ex:
+        a, b = ex.submit(f), ex.submit(g)
+        return a.result(), b.result()
+
+
 def gbits(g):
     """global r after a snippet -> bits | None"""
     if g and g.startswith("n"):
@@ -250,8 +258,8 @@ def random_bits(rng, n):
 
 def check_print(ctx, bits, tag):
     binary = ctx.harness("debug")
-    sn = run_snips(binary, [(b, PRINT_SRC) for b in bits])
-    model = coq_lists("run_print_w", [str(b) for b in bits], 20, "C19print" + tag)
+    sn, model = both(lambda: run_snips(binary, [(b, PRINT_SRC) for b in bits]),
+                     lambda: coq_lists("run_print_w", [str(b) for b in bits], 20, "C19print" + tag))
     texts = []
     nontriv = set()
     for b, s, m in zip(bits, sn, model):
@@ -363,8 +371,8 @@ def check_parse(ctx, texts, tag, lit=True):
     items = [(None, tonum_src(t)) for t in texts]
     lits = [t for t in texts if lit and LIT_RE.fullmatch(t)]
     items += [(None, "r = %s;" % t) for t in lits]
-    sn = run_snips(binary, items)
-    model = coq_lists("run_parse_w", [wire_text(t) for t in texts], 25, "C19parse" + tag)
+    sn, model = both(lambda: run_snips(binary, items),
+                     lambda: coq_lists("run_parse_w", [wire_text(t) for t in texts], 25, "C19parse" + tag))
     mres = dict(zip(texts, model))
     nontriv = set()
     for idx, (t, s) in enumerate(zip(texts + lits, sn)):
@@ -480,8 +488,8 @@ def gen_lex_case(rng):
 
 def check_lex(ctx, cases, tag):
     binary = ctx.harness("debug")
-    recs = yvlib.run_harness(binary, ["run - " + hx(c["prog"]) for c in cases])
-    model = coq_lists("run_lex_w", [wire_text(c["text"]) for c in cases], 25, "C19lex" + tag)
+    recs, model = both(lambda: yvlib.run_harness(binary, ["run - " + hx(c["prog"]) for c in cases]),
+                       lambda: coq_lists("run_lex_w", [wire_text(c["text"]) for c in cases], 25, "C19lex" + tag))
     # values of the literals involved (for the expected printed text / range bounds): from the model
     nontriv = set()
     for c, r, m in zip(cases, recs, model):
